@@ -7,19 +7,31 @@ from drive_C01 import gen_session
 
 # ---- command-level histories with caller-side cancellation (Spec/C03Cancel.v) ----
 def run_cancel(case):
-    """ops: ['submit'] | ['cancel', k] | ['reply'] | ['lose'] on a real TorControlProtocol; the k-th
-    submitted command is `GETINFO c<k>`; observations per op: ['wrote', k] / ['res', k, outcome]"""
+    """ops: ['submit'] | ['cancel', k] | ['reply'] | ['lose'] | ['watch', beh] | ['replylose'] on a real
+    TorControlProtocol; the k-th submitted command is `GETINFO c<k>`; observations per op: ['wrote', k] /
+    ['res', k, outcome] / ['note', w].  'replylose': the reply of the command in flight arrives and the callback
+    its caller attached hangs up, on a transport that reports the loss synchronously."""
     from twisted.internet.defer import CancelledError
     from twisted.internet.error import ConnectionDone
     from twisted.python.failure import Failure
-    from twisted.test.proto_helpers import StringTransport
+    from twisted.test.proto_helpers import StringTransport, StringTransportWithDisconnection
     from txtorcon import TorControlProtocol
     from txtorcon.torcontrolprotocol import TorDisconnectError
     cur = []
 
     nwritten = [0]
 
-    class Tr(StringTransport):
+    class Tr(StringTransportWithDisconnection):
+        # loseConnection(): like StringTransport (only `disconnecting` is set; the loss is delivered by a later
+        # 'lose') unless `sync_loss`: then like StringTransportWithDisconnection - connectionLost is called at once
+        sync_loss = False
+
+        def loseConnection(self):
+            if self.sync_loss:
+                StringTransportWithDisconnection.loseConnection(self)
+            else:
+                StringTransport.loseConnection(self)
+
         def write(self, data):
             line = bytes(data)
             if line.startswith(b'GETINFO c') and line.endswith(b'\r\n'):
@@ -34,6 +46,7 @@ def run_cancel(case):
     proto = TorControlProtocol()
     proto.connectionMade = lambda: None
     proto.makeConnection(Tr())
+    proto.transport.protocol = proto            # as the project's DisconnectionTests.setUp does
     ds = []
 
     def watch(d, k):
@@ -100,9 +113,29 @@ def run_cancel(case):
                 do_submit()
         proto.when_disconnected().addBoth(told)     # the value is a Failure: it travels the errback chain
 
+    pre = []
+
+    def do_replylose():
+        # the command in flight: the oldest one that was written and has had no reply
+        c = nreplied[0]
+        d = ds[c] if c < len(ds) else None          # None: nothing awaits a reply (outside the envelope)
+        if d is not None and not d.called:
+            # (a Deferred its caller has cancelled ran its chain then; nothing is left to hang up)
+            def hang_up(v):
+                if lazy:
+                    pre.extend(poll())              # what the caller sees when its callback starts
+                proto.transport.sync_loss = True
+                proto.transport.loseConnection()    # -> proto.connectionLost(Failure(ConnectionDone())), now
+                return v
+            d.addCallback(hang_up)                  # after the recording callback of watch()
+        nreplied[0] += 1
+        proto.dataReceived(b'250 OK\r\n')
+
+    nreplied = [0]
     out = []
     for i, o in enumerate(case['ops']):
         cur = []
+        pre = []
         if case.get('close_before') == i:
             # the application closes the connection itself (as quit() does); the loss is delivered later
             proto.transport.loseConnection()
@@ -124,13 +157,16 @@ def run_cancel(case):
             elif o[0] == 'watch':
                 do_watch(o[1])
             elif o[0] == 'reply':
+                nreplied[0] += 1
                 proto.dataReceived(b'250 OK\r\n')
+            elif o[0] == 'replylose':
+                do_replylose()
             elif o[0] == 'lose':
                 proto.connectionLost(Failure(ConnectionDone()))
         except Exception as e:                      # an exception of the implementation is an observation
             cur.append(['res', 999999, 'raised:' + type(e).__name__])
         if lazy:
-            cur = [e for e in cur if e[0] == 'note'] + poll() + [e for e in cur if e[0] != 'note']
+            cur = pre + [e for e in cur if e[0] == 'note'] + poll() + [e for e in cur if e[0] != 'note']
         out.append(cur)
     for d in ds:
         d.addErrback(lambda f: None)                # no 'Unhandled error in Deferred' noise at collection time
@@ -141,7 +177,8 @@ def cancel_to_coq(case, obs):
     def op(o):
         if o[0] == 'watch':
             return C('QWatch', {'plain': 'WPlain', 'nested': 'WNested', 'submit': 'WSubmit'}[o[1]])
-        return {'submit': 'QSubmit', 'reply': 'QReply', 'lose': 'QLose'}.get(o[0]) or C('QCancel', N(o[1]))
+        return ({'submit': 'QSubmit', 'reply': 'QReply', 'lose': 'QLose', 'replylose': 'QReplyLose'}.get(o[0])
+                or C('QCancel', N(o[1])))
 
     def ev(e):
         if e[0] == 'wrote':
@@ -156,11 +193,15 @@ def cancel_to_coq(case, obs):
 
 
 def gen_cancel(rng):
-    """a causal command-level history: replies only while a command awaits one, one loss, 0-3 commands after"""
+    """a causal command-level history: replies only while a command awaits one, one loss, 0-3 commands after;
+    about one reply in ten is the one whose callback hangs up (at most one per history: it is the loss, unless
+    the caller had cancelled that command - then it is a plain reply)"""
     ops = []
     n = 0            # submitted
     answered = 0
     lost = False
+    cancelled = set()
+    hung_up = False
     lazy = rng.random() < 0.4
     behs = ['plain', 'nested'] if lazy else ['plain', 'nested', 'submit', 'submit']
     length = rng.randrange(3, 16)
@@ -189,8 +230,14 @@ def gen_cancel(rng):
             # cancel: prefer an unanswered command, sometimes an answered / already cancelled one
             k = rng.randrange(answered, n) if answered < n and rng.random() < 0.8 else rng.randrange(n)
             ops.append(['cancel', k])
+            cancelled.add(k)
         elif answered < n:
-            ops.append(['reply'])
+            if not hung_up and rng.random() < 0.1:
+                ops.append(['replylose'])
+                hung_up = True
+                lost = answered not in cancelled
+            else:
+                ops.append(['reply'])
             answered += 1
         else:
             ops.append(['submit'])
@@ -205,7 +252,7 @@ def gen_cancel(rng):
         # (no reply may follow the close: Twisted's line receiver drops data once the transport is closing)
         li = [i for i, o in enumerate(ops) if o[0] == 'lose']
         if li:
-            lo = max([i + 1 for i, o in enumerate(ops[:li[0]]) if o[0] == 'reply'] + [0])
+            lo = max([i + 1 for i, o in enumerate(ops[:li[0]]) if o[0] in ('reply', 'replylose')] + [0])
             c['close_before'] = rng.randrange(lo, li[0] + 1)
     return c
 
@@ -229,9 +276,12 @@ class P(core.Prop):
             'before and after the loss whose callbacks do nothing / ask again / submit a command; in 40% the caller attaches nothing '
             'to the Deferreds and their state is read after every operation; 15% of the commands are passed as bytes '
             'holding non-ASCII bytes, 8% are empty command lines; in a quarter the application closes the transport '
-            'itself some operations before the loss is delivered); thorough adds every history of '
-            'length <= 6 over {submit, cancel 0, cancel 1, reply, lose}')
-    trusted = ['Twisted LineOnlyReceiver / StringTransport; the Deferred callbacks of the harness']
+            'itself some operations before the loss is delivered; one reply in ten - at most one per history - is '
+            'a reply whose callback, attached by the caller to that command, hangs up on a transport that reports '
+            'the loss synchronously, so connectionLost runs inside the reply callback); thorough adds every history '
+            'of length <= 6 over {submit, cancel 0, cancel 1, reply, lose, reply whose callback hangs up}')
+    trusted = ['Twisted LineOnlyReceiver / StringTransport / StringTransportWithDisconnection; '
+               'the Deferred callbacks of the harness']
     assumptions = ['connectionLost is delivered once, and no bytes arrive after it',
                    'the deprecated on_disconnect Deferred has no callbacks']
 
@@ -309,47 +359,49 @@ class P(core.Prop):
             for pos in range(0, min(total, 160) + 1):
                 out.append({'items': items, 'ops': self.cut_at(random.Random(pos), items, ops, pos), 'lbehs': {}})
         import itertools
-        alpha = [['submit'], ['cancel', 0], ['cancel', 1], ['reply'], ['lose']]
+        def causal(t):
+            """(in the envelope?, commands submitted): replies only while a command awaits one and the connection
+            is up; a reply whose callback hangs up is the loss unless the caller had cancelled that command"""
+            n = a = 0
+            lost = False
+            good = True
+            gone = set()
+            for o in t:
+                if o[0] == 'submit':
+                    n += 1
+                elif o[0] == 'cancel':
+                    good = good and o[1] < n
+                    gone.add(o[1])
+                elif o[0] in ('reply', 'replylose'):
+                    good = good and not lost and a < n
+                    if o[0] == 'replylose' and a not in gone:
+                        lost = True
+                    a += 1
+                elif o[0] == 'lose':
+                    good = good and not lost
+                    lost = True
+            return good, n
+        alpha = [['submit'], ['cancel', 0], ['cancel', 1], ['reply'], ['lose'], ['replylose']]
         for ln in range(1, 7):
             for t in itertools.product(alpha, repeat=ln):
-                n = a = 0
-                lost = False
-                good = True
-                for o in t:
-                    if o[0] == 'submit':
-                        n += 1
-                    elif o[0] == 'cancel':
-                        good = good and o[1] < n
-                    elif o[0] == 'reply':
-                        good = good and not lost and a < n
-                        a += 1
-                    elif o[0] == 'lose':
-                        good = good and not lost
-                        lost = True
+                good, n = causal(t)
+                if sum(1 for o in t if o[0] == 'replylose') > 1:
+                    continue
                 if good and n >= 1:
                     out.append({'fam': 'cancel', 'ops': [list(o) for o in t]})
                     if ln <= 5:
                         out.append({'fam': 'cancel', 'ops': [list(o) for o in t], 'lazy': True})
-        alpha2 = [['submit'], ['reply'], ['lose'], ['watch', 'plain'], ['watch', 'nested'], ['watch', 'submit']]
+        alpha2 = [['submit'], ['reply'], ['lose'], ['watch', 'plain'], ['watch', 'nested'], ['watch', 'submit'],
+                  ['replylose']]
         for ln in range(2, 6):
             for t in itertools.product(alpha2, repeat=ln):
-                n = a = 0
-                lost = False
-                good = any(o[0] == 'watch' for o in t)
-                for o in t:
-                    if o[0] == 'submit':
-                        n += 1
-                    elif o[0] == 'reply':
-                        good = good and not lost and a < n
-                        a += 1
-                    elif o[0] == 'lose':
-                        good = good and not lost
-                        lost = True
-                if good:
+                good, n = causal(t)
+                if good and any(o[0] == 'watch' for o in t):
                     out.append({'fam': 'cancel', 'ops': [list(o) for o in t]})
         return out, ('the loss at every byte offset (up to 160) of 200 sessions; every causal command-level history '
-                     'of length <= 6 over {submit, cancel 0, cancel 1, reply, lose} and of length <= 5 over '
-                     '{submit, reply, lose, watch plain / nested / submit} with at least one watch')
+                     'of length <= 6 over {submit, cancel 0, cancel 1, reply, lose, reply whose callback hangs up (at most one)} '
+                     'and of length <= 5 over {submit, reply, lose, watch plain / nested / submit, reply whose '
+                     'callback hangs up} with at least one watch')
 
     def run_impl(self, case):
         if case.get('fam') == 'cancel':
@@ -364,7 +416,9 @@ class P(core.Prop):
     def kind(self, case, obs):
         ops = case['ops']
         if case.get('fam') == 'cancel':
-            lost = any(o[0] == 'lose' for o in ops)
+            lost = any(o[0] == 'lose' for o in ops) or (
+                any(o[0] == 'replylose' for o in ops) and any(e[0] == 'res' and e[2] == 'disc'
+                                                                for es in obs['ops'] for e in es))
             nc = sum(1 for es in obs['ops'] for e in es if e[0] == 'res' and e[2] == 'cancelled')
             return 'cancel%s/%s/%s' % ('-lazy' if case.get('lazy') else '', 'lost' if lost else 'open',
                                        '0' if nc == 0 else ('1' if nc == 1 else '2+'))
@@ -384,6 +438,8 @@ class P(core.Prop):
         ops = case['ops']
         if case.get('fam') == 'cancel':
             for i in range(len(ops) - 1, -1, -1):
+                if ops[i][0] == 'replylose':
+                    yield dict(case, ops=ops[:i] + [['reply']] + ops[i + 1:])
                 if ops[i][0] in ('cancel', 'reply', 'watch') or (ops[i][0] == 'submit' and i == len(ops) - 1):
                     yield dict(case, ops=ops[:i] + ops[i + 1:])
             return
